@@ -172,9 +172,16 @@ def rust_part():
     if "strong_count > 1" not in cond_txt:
         die("open path: unexpected condition: " + cond_txt)
     close_when_shared = "weak_count" not in cond_txt
+    # --- do continuations keep the instructions of their top-level form alive (finding K08h)?  SteelThread::execute
+    # publishes them in `current_root`, the three constructors of continuations clone it, restoring a closed
+    # continuation makes its root the current one.
+    keeps_root = (len(re.findall(r"root:\s*self\s*\.thread\s*\.current_root\s*\.clone\(\)", src)) >= 3
+                  and re.search(r"self\s*\.current_root\s*\.replace\(\s*instructions\.clone\(\)\s*\)", src) is not None
+                  and re.search(r"self\.thread\.current_root\s*=\s*continuation\.root", src) is not None
+                  and re.search(r"continuation\.root\s*=\s*open\.root\.clone\(\)", src) is not None)
     return {"close_on_unwind": close_on_unwind[0] and all(walks) and not bypass, "mark_closed_before_taken": close_on_unwind[0],
             "unwind_walks_every_frame": all(walks) and not bypass,
-            "dummy_frame": dummy[0], "close_when_shared": close_when_shared,
+            "dummy_frame": dummy[0], "close_when_shared": close_when_shared, "continuation_keeps_root": keeps_root,
             "open_path_condition": cond_txt}
 
 
@@ -202,13 +209,17 @@ def windHandlerPopsRunsOutReraises : Bool := %s
 /-- … and does so only if the extent's entry is still the head of winders (repair of K08g). -/
 def windHandlerGuarded : Bool := %s
 
-/-- vm.rs: what the VM model is parameterised by. -/
+/-- vm.rs: a continuation holds the instructions of the top-level form its frames return into (K08h). -/
+def continuationKeepsRoot : Bool := %s
+
+/-- vm.rs: what the VM model is parameterised by.  closeOnUnwind = the mark of a popped frame is closed before it is
+taken AND every frame an error drops goes through the unwind loop (no path that clears the frames before it). -/
 def codeCfg : Model.Cfg := { closeOnUnwind := %s, closeWhenShared := %s, dummyFrame := %s }
 
 end SteelVerif.C08.GenCode
 """ % (json.dumps(s), json.dumps(r), s["cmp"], b(s["wrapper_guard_eq"]), b(s["wind_pushes_fresh_pair"]),
        b(s["wind_normal_pops_runs_out"]), b(s["wind_handler_pops_runs_out_reraises"]), b(s["wind_handler_guarded"]),
-       b(r["close_on_unwind"]), b(r["close_when_shared"]), b(r["dummy_frame"]))
+       b(r["continuation_keeps_root"]), b(r["close_on_unwind"]), b(r["close_when_shared"]), b(r["dummy_frame"]))
     path = os.path.join(VERIF, "lean", "SteelVerif", "C08", "GenCode.lean")
     old = open(path).read() if os.path.exists(path) else None
     if old != out:
